@@ -22,6 +22,41 @@ def sh(cmd, **kw):
 
 
 def main(argv):
+    if "--jobs" in argv:
+        # run N shards of the case list in parallel, each on its own scratch copy; concatenate their reports
+        n = int(argv[argv.index("--jobs") + 1])
+        rest = [a for k, a in enumerate(argv) if a != "--jobs" and not (k > 0 and argv[k - 1] == "--jobs")]
+        outdir = os.path.join(os.environ.get("TMPDIR", "/var/tmp"), "pomverif-shards.%d" % os.getpid())
+        os.makedirs(outdir, exist_ok=True)
+        procs = []
+        for k in range(n):
+            fh = open(os.path.join(outdir, "%d.log" % k), "w")
+            procs.append((subprocess.Popen([sys.executable, "-m", "pv.selftest"] + rest + ["--shard", "%d/%d" % (k, n)], stdout=fh, stderr=subprocess.STDOUT, cwd=VERIF), fh))
+        rc = 0
+        for p_, fh in procs:
+            rc = max(rc, p_.wait())
+            fh.close()
+        tot = good = 0
+        res = []
+        for k in range(n):
+            for line in open(os.path.join(outdir, "%d.log" % k)):
+                if line.startswith("selftest:"):
+                    m_ = [int(x) for x in line.replace(",", " ").split() if x.isdigit()]
+                    tot += m_[0]
+                    good += m_[1]
+                else:
+                    sys.stdout.write(line)
+            rj = os.path.join(outdir, "%d.json" % k)
+            if os.path.exists(rj):
+                res.extend(json.load(open(rj)))
+        json.dump(res, open(os.path.join(VERIF, "evidence", "selftest.json"), "w"), indent=1)
+        shutil.rmtree(outdir, ignore_errors=True)
+        print("selftest: %d cases, %d as expected" % (tot, good))
+        return rc
+    shard = None
+    if "--shard" in argv:
+        a_, b_ = argv[argv.index("--shard") + 1].split("/")
+        shard = (int(a_), int(b_))
     props = [a for a in argv if a.startswith("C") and a[1:].isdigit()]
     only = argv[argv.index("--only") + 1] if "--only" in argv else None
     scratch = os.path.join(os.environ.get("TMPDIR", "/var/tmp"), "pomverif-mut.%d" % os.getpid())
@@ -31,6 +66,12 @@ def main(argv):
     try:
         sh(["rsync", "-a", "--exclude", "_build", "--exclude", ".git", SRC + "/", repo + "/"])
         env = dict(os.environ, POMVERIF_REPO=repo, POMVERIF_CACHE=os.path.join(scratch, "cache"))
+        # the checker itself is run from a snapshot taken now, so that edits made to /verif while a long self-test
+        # is running do not leak into it
+        snap = os.path.join(scratch, "verif")
+        os.makedirs(snap)
+        for d in ("verify", "checks", "pv", "tool", "spec", "known_findings.txt"):
+            sh(["rsync", "-a", "--exclude", "__pycache__", os.path.join(VERIF, d), snap + "/"])
         cases = []
         for p in sorted(glob.glob(os.path.join(VERIF, "mutants", "C*", "*.patch"))):
             cases.append((os.path.basename(os.path.dirname(p)), p, "kill"))
@@ -57,6 +98,11 @@ def main(argv):
             cases = [c for c in cases if c[0] in props and os.sep + "ALL" + os.sep not in c[1]]
         if only:
             cases = [c for c in cases if only in c[1]]
+        if shard is not None:
+            # whole patches stay in one shard (consecutive runs of one patch reuse the extracted facts)
+            names = sorted({c[1] for c in cases})
+            mine = {nm for k, nm in enumerate(names) if k % shard[1] == shard[0]}
+            cases = [c for c in cases if c[1] in mine]
         res = []
         ok = True
         for prop, patch, expect in cases:
@@ -70,18 +116,24 @@ def main(argv):
                 sh(["rsync", "-a", "--delete", "--exclude", "_build", "--exclude", ".git", SRC + "/", repo + "/"])
                 ok = False
                 continue
-            r = sh([os.path.join(VERIF, "verify"), prop, "--tier", "quick", "--no-evidence"], env=env, cwd=VERIF)
+            r = sh([os.path.join(snap, "verify"), prop, "--tier", "quick", "--no-evidence"], env=env, cwd=snap)
             sh(["patch", "-p1", "-s", "-R", "-i", patch], cwd=repo)
             rules = sorted(set(l.split()[1] for l in r.stdout.splitlines() if l.startswith("  violation ")))
             good = (r.returncode == 1) if expect == "kill" else (r.returncode != 1) if expect in ("miss", "noalarm") else (r.returncode == 0)
             verdict = {0: "silent", 1: "VIOLATION", 2: "analysis-broken"}.get(r.returncode, "rc=%d" % r.returncode)
+            if r.returncode == 1 and "VIOLATION property=" not in r.stdout:
+                verdict = "CHECKER-CRASHED"       # a Python error in the checker is not a verdict
+                good = False
             print("%-7s %-60s %-16s %-30s %s %.1fs" % (expect, os.path.relpath(patch, VERIF) + ("@" + prop if expect == "noalarm" else ""), verdict, ",".join(rules), "ok" if good else "MISSED" if expect == "kill" else "FALSE-ALARM", time.time() - t0))
             if not good:
                 ok = False
                 if "--verbose" in argv:
                     print(r.stdout[-3000:])
             res.append({"property": prop, "patch": os.path.relpath(patch, VERIF), "expect": expect, "verdict": verdict, "rules": rules, "ok": good})
-        json.dump(res, open(os.path.join(VERIF, "evidence", "selftest.json"), "w"), indent=1)
+        if shard is not None:
+            json.dump(res, open(os.path.join(os.environ.get("TMPDIR", "/var/tmp"), "pomverif-shards.%d" % os.getppid(), "%d.json" % shard[0]), "w"))
+        else:
+            json.dump(res, open(os.path.join(VERIF, "evidence", "selftest.json"), "w"), indent=1)
         print("selftest: %d cases, %d as expected" % (len(res), sum(1 for x in res if x["ok"])))
         return 0 if ok else 1
     finally:
